@@ -26,6 +26,42 @@ fn try_open(out: &mut TraceOut, bytes: &[u8], what: &str) {
     }
 }
 
+/// The same through a real file (std::fs::File has its own rules for offsets: negative positions
+/// and offsets >= 2^63 are errors of the operating system, not of an in-memory cursor).
+fn try_open_file(out: &mut TraceOut, file: &mut std::fs::File, bytes: &[u8], what: &str) {
+    use std::io::{Seek, SeekFrom, Write};
+    let prepared = (|| -> std::io::Result<std::fs::File> {
+        file.set_len(0)?;
+        file.seek(SeekFrom::Start(0))?;
+        file.write_all(bytes)?;
+        file.flush()?;
+        file.seek(SeekFrom::Start(0))?;
+        file.try_clone()
+    })();
+    let Ok(f) = prepared else { return };
+    let r = catch_unwind(AssertUnwindSafe(|| grenad::Reader::new(f)));
+    let size = bytes.len();
+    let tail: Vec<u8> = bytes[size.saturating_sub(26)..].to_vec();
+    match r {
+        Ok(Ok(reader)) => {
+            let ver = match reader.file_version() {
+                grenad::FileVersion::FormatV1 => 1,
+                grenad::FileVersion::FormatV2 => 2,
+            };
+            out.ev(json!({"ev": "Try", "what": what, "size": size, "tail": tail, "res": "ok", "ver": ver,
+                          "codec": codec_id(reader.compression_type())}));
+        }
+        Ok(Err(_)) => out.ev(json!({"ev": "Try", "what": what, "size": size, "tail": tail, "res": "err", "ver": 0, "codec": -1})),
+        Err(e) => out.ev(json!({"ev": "Try", "what": what, "size": size, "tail": tail, "res": "panic", "ver": 0, "codec": -1, "detail": panic_msg(e)})),
+    }
+}
+
+fn scratch_file(idx: u64) -> Option<(std::fs::File, std::path::PathBuf)> {
+    let p = std::env::temp_dir().join(format!("gv-open-{}-{}.bin", std::process::id(), idx));
+    let f = std::fs::OpenOptions::new().read(true).write(true).create(true).truncate(true).open(&p).ok()?;
+    Some((f, p))
+}
+
 pub fn scn_open(out: &mut TraceOut, r: &mut R, idx: u64, heavy: bool) {
     // base file: small, all codecs over the scenarios, V1 for every third one
     let (mut cfg, mut entries) = random_file(r, 1000 + idx, false);
@@ -62,6 +98,47 @@ pub fn scn_open(out: &mut TraceOut, r: &mut R, idx: u64, heavy: bool) {
             }
         }
         bytes[pos] = orig;
+    }
+    // boundary values of the numeric trailer fields (root offset, entry count): the trailer stays
+    // valid, opening does not follow the offset; in memory and through a real file
+    let scratch = scratch_file(idx);
+    {
+        let edge: [u64; 12] = [0, 1, n as u64, n as u64 + 1, (1 << 31) - 1, 1 << 32, (1 << 63) - 1, 1 << 63, (1 << 63) + 1,
+                               u64::MAX - 22, u64::MAX - 21, u64::MAX];
+        let (off_at, cnt_at) = (n - tl, n - tl + 9);
+        let saved = bytes.clone();
+        for (fi, at) in [off_at, cnt_at].into_iter().enumerate() {
+            for x in edge {
+                // both versions store the two fields little-endian
+                let enc = x.to_le_bytes();
+                bytes[at..at + 8].copy_from_slice(&enc);
+                try_open(out, &bytes, if fi == 0 { "edge-offset" } else { "edge-count" });
+                try_open(out, &bytes[n - tl..], "edge-bare");
+                if let Some((f, _)) = scratch.as_ref() {
+                    let mut f = f.try_clone().unwrap();
+                    try_open_file(out, &mut f, &bytes, "file-edge");
+                    try_open_file(out, &mut f, &bytes[n - tl..], "file-edge-bare");
+                }
+                bytes.copy_from_slice(&saved);
+            }
+        }
+    }
+    // through a real file: some truncations and the corruptions of every trailer byte to 3 values
+    if let Some((f, path)) = scratch {
+        let mut f = f;
+        for cut in (0..=n).rev().take(40).chain([0usize, 1, 3, 4, 5].into_iter().filter(|c| *c + 40 < n)) {
+            try_open_file(out, &mut f, &bytes[..cut], "file-truncate");
+        }
+        for pos in n - tl..n {
+            let orig = bytes[pos];
+            for v in [orig ^ 0x80, orig.wrapping_add(1), !orig] {
+                bytes[pos] = v;
+                try_open_file(out, &mut f, &bytes, "file-corrupt");
+            }
+            bytes[pos] = orig;
+        }
+        drop(f);
+        let _ = std::fs::remove_file(path);
     }
     // only the trailer, and tails of the file of every length up to 30
     for t in 0..=30usize.min(n) {
